@@ -2,8 +2,9 @@
 // Engine D (lattice): for each of the 15 proof systems of pkg/zk the real NewProof / Verify
 // are run on (a) the witness boundary lattice, (b) every single-field substitution of the
 // statement, the context and the proof, (c) honest-algorithm proofs for out-of-range
-// witnesses, (d) adaptive-statement forgeries.  Oracle: Verify is true exactly on the
-// untouched (statement, context, proof) triples and never panics.
+// witnesses, (d) honest-algorithm proofs for statements with one relation broken,
+// (e) adaptive-statement forgeries.  Oracle: Verify is true exactly on the untouched
+// (statement, context, proof) triples and never panics.
 package main
 
 import (
@@ -22,7 +23,7 @@ import (
 
 type caseID struct {
 	Sys   string `json:"sys"`
-	Kind  string `json:"kind"` // completeness | binding | range | forgery
+	Kind  string `json:"kind"` // completeness | binding | range | false-statement | forgery
 	Point point  `json:"point"`
 	Seed  int    `json:"seed_index"`
 	Mut   string `json:"mutator,omitempty"`
@@ -526,6 +527,73 @@ func runBinding(s *system, pt point, chunk int, only string) (violated bool) {
 	return
 }
 
+// runFalse: soundness smoke test.  One relation of the statement is broken (one public field
+// replaced, exactly the public mutators of the binding test) and the *honest prover algorithm*
+// is run on the false statement with the old witness: every verification equation that does
+// not involve the broken relation holds, so only the check of that relation can reject.  This
+// is what exposes a dropped verification equation — substitution tests cannot, because every
+// field is hashed into the challenge and a changed field breaks all equations at once.
+func runFalse(s *system, pt point, chunk int, only string) (violated bool) {
+	b, err := buildSt(s, pt, 0)
+	if err != "" {
+		res.Hard(s.name + " " + pt.String() + ": " + err)
+		return
+	}
+	base := encode(b.st.pub)
+	ls := leaves(b.st.pub)
+	for i, m := range publicMutators(b.st.pub, b.st.alts) {
+		if only != "" {
+			if m.name != only {
+				continue
+			}
+		} else if i%nChunks(s) != chunk {
+			continue
+		}
+		// auxiliary Pedersen parameters are not part of the relation (except in prm, where they are the statement)
+		if ls[m.edits[0].idx].k == kPed && s.name != "prm" {
+			continue
+		}
+		id := caseID{Sys: s.name, Kind: "false-statement", Point: pt, Mut: m.name, Chunk: chunk}
+		pub := m.apply(b.st.pub)
+		if encode(pub) == base {
+			res.Case("")
+			continue
+		}
+		fb := &built{st: &statement{pub: pub, priv: b.st.priv}, pubPlain: plainify(pub)}
+		po := proveSt(s, fb, pt, 0, "prove-false|"+m.name, baseCtx)
+		if po.panicked || isNilProof(po.proof) {
+			res.Case("")
+			count(s.name, "false-statement-prover-refused")
+			logf("false-statement %s %s %s: prover refused (%s)", s.name, pt, m.name, po.msg)
+			continue
+		}
+		res.Case(id.key())
+		count(s.name, "false-statement")
+		v := verifySt(s, baseCtx, fb.pubPlain, po.proof)
+		logf("false-statement %s %s %s: verify=%v panic=%v %s", s.name, pt, m.name, v.ok, v.panicked, v.msg)
+		switch {
+		case v.panicked:
+			violated = true
+			res.Violate(fmt.Sprintf("panic|%s|%s", s.name, v.fr), fmt.Sprintf("Verify panicked: %s\nsystem %s, point %s, false statement %s\nstatement: %s", v.msg, s.name, pt, m.name, describe(fb.pubPlain)), id)
+		case v.ok:
+			violated = true
+			res.Violate(fmt.Sprintf("zk|%s|false-statement|%s|accepted", s.name, m.gname),
+				fmt.Sprintf("a proof made by the honest algorithm for a FALSE statement verifies (the relation involving the replaced field is not checked)\nsystem %s, point %s, broken by %s\ntrue statement: %s\nfalse statement: %s\nproof: %s", s.name, pt, m.name, describe(b.pubPlain), describe(fb.pubPlain), describe(po.proof)), id)
+		}
+	}
+	return
+}
+
+func falsePoints(s *system) []point {
+	out := []point{merge(witDiag(s, "rand"), confDefault(s))}
+	if vkit.Thorough() && len(s.coords) > 0 {
+		for _, d := range []string{"max", "-max"} {
+			out = append(out, merge(witDiag(s, d), confDefault(s)))
+		}
+	}
+	return out
+}
+
 func runRange(s *system, pt point) bool {
 	id := caseID{Sys: s.name, Kind: "range", Point: pt}
 	b, err := buildSt(s, pt, 0)
@@ -616,6 +684,13 @@ func units(sys []*system) []unit {
 				}
 			}
 		}
+		if vkit.Want(s.name + "|false-statement") {
+			for _, pt := range falsePoints(s) {
+				for c := 0; c < nChunks(s); c++ {
+					us = append(us, unit{s: s, kind: "false-statement", pt: pt, chunk: c})
+				}
+			}
+		}
 		if vkit.Want(s.name + "|range") {
 			for _, pt := range rangePoints(s) {
 				us = append(us, unit{s: s, kind: "range", pt: pt})
@@ -632,7 +707,7 @@ func units(sys []*system) []unit {
 
 func main() {
 	res = vkit.Init("C10")
-	res.Rule = "one case = (proof system, kind, lattice point of witnesses/keys/nonces, seed index, mutator); completeness: an honest proof at that point; binding: one single-field substitution of the statement, the context or the proof (cases whose substitution leaves the encoded object unchanged are trivial and not counted); range: an honest-algorithm proof for a witness beyond the slack range; forgery: one adaptive-statement forgery"
+	res.Rule = "one case = (proof system, kind, lattice point of witnesses/keys/nonces, seed index, mutator); completeness: an honest proof at that point; binding: one single-field substitution of the statement, the context or the proof (cases whose substitution leaves the encoded object unchanged are trivial and not counted); range: an honest-algorithm proof for a witness beyond the slack range; false-statement: an honest-algorithm proof for a statement with one relation broken; forgery: one adaptive-statement forgery"
 	res.Assumptions = []string{
 		"randomness of provers is a SHA-256 counter-mode DRBG seeded per case; pool=nil",
 		"contexts are hash.New() + session bytes + party id, as round.Helper.HashForID builds them",
@@ -663,6 +738,8 @@ func main() {
 				bad = runBinding(s, rp.Point, rp.Chunk, rp.Mut)
 			case "range":
 				bad = runRange(s, rp.Point)
+			case "false-statement":
+				bad = runFalse(s, rp.Point, rp.Chunk, rp.Mut)
 			case "forgery":
 				for _, f := range forgeries() {
 					if f.sys == rp.Sys && f.field == rp.Mut {
@@ -700,6 +777,8 @@ func main() {
 			runBinding(u.s, u.pt, u.chunk, "")
 		case "range":
 			runRange(u.s, u.pt)
+		case "false-statement":
+			runFalse(u.s, u.pt, u.chunk, "")
 		case "forgery":
 			runForgery(u.forge)
 		}
